@@ -111,8 +111,13 @@ def _nt_dims(d, S, prefix=""):
 # 1. index model (every entry, dtype, shape)
 # ------------------------------------------------------------------------------------------
 @st.composite
-def _index_case(draw, nmax=5, budget=64):
+def _index_case(draw, nmax=5, budget=64, shuffle=False):
     d = draw(_dims(nmax=nmax, budget=budget))
+    if shuffle:
+        # the size budget makes the late factors 1; move the non-trivial factors to drawn positions (a slip that
+        # needs a large subsystem *index* - e.g. one relying on set iteration order, sorted only below 8 - is
+        # invisible if every factor from position 8 on has dimension 1)
+        d = [d[i] for i in draw(st.permutations(list(range(len(d)))))]
     n = len(d)
     S, _ = draw(_ordered_subset(n))
     forms = ["list", "list"]
@@ -429,8 +434,8 @@ def nt_cvx(case):
 
 SUBCHECKS = [
     SubCheck("index_model", check_index_model, _index_case, nt_index, quick=24000, thorough=400000),
-    # larger systems (up to 9 subsystems, total dimension up to 512): the property is not bounded in size
-    SubCheck("index_model_large", check_index_model, lambda: _index_case(nmax=9, budget=512), nt_index, quick=400, thorough=8000),
+    # larger systems (up to 12 subsystems in drawn order, total dimension up to 256): the property is not bounded in size
+    SubCheck("index_model_large", check_index_model, lambda: _index_case(nmax=12, budget=256, shuffle=True), nt_index, quick=1200, thorough=24000),
     SubCheck("linear_trace", check_linear_trace, _linear_case, nt_linear, quick=7000, thorough=120000),
     SubCheck("product", check_product, _product_case, nt_product, quick=7000, thorough=120000),
     SubCheck("compose_order", check_compose, _compose_case, nt_compose, quick=7000, thorough=120000),
